@@ -187,6 +187,24 @@ Proof.
   assert (ED : (14 * Q22 - 16 * Q23) ^ 2 = 8 * Q22 * B22 - D) by (unfold D; ring).
   rewrite ED. clearbody D. field. repeat split; try lra; assumption.
 Qed.
+
+(* ... and it is strictly positive as soon as the (2,2) integral is positive and the 2x2 Sonine determinant is positive *)
+Corollary viscosity_single_species_positive (b0 b1 : R) :
+  0 < Q22 -> 0 < b11 * b22 - b12 ^ 2 ->
+  qhat00 RNum (c1 Q11) (c1 Q22) ms 1 ns 0 0 * b0 + qhat01 RNum (c1 Q11) (c1 Q12) (c1 Q22) (c1 Q23) ms 1 ns 0 0 * b1
+    = visc_rhs0 RNum U T ms ns 0 ->
+  m / m * qhat01 RNum (c1 Q11) (c1 Q12) (c1 Q22) (c1 Q23) ms 1 ns 0 0 * b0
+    + qhat11 RNum (c1 Q11) (c1 Q12) (c1 Q13) (c1 Q22) (c1 Q23) (c1 Q24) (c1 Q33) ms 1 ns 0 0 * b1 = 0 ->
+  0 < visc_value RNum U T ns 1 (fun _ => b0).
+Proof.
+  intros HQ HD E1 E2. rewrite (viscosity_single_species_textbook b0 b1) by (try assumption; lra).
+  apply Rmult_lt_0_compat.
+  - apply Rdiv_lt_0_compat; [|exact HQ]. apply Rmult_lt_0_compat; [lra|]. apply sqrt_lt_R0.
+    apply Rmult_lt_0_compat; [apply Rmult_lt_0_compat; [apply PI_RGT_0 | exact Hm] | exact HkT].
+  - assert (0 <= b12 ^ 2 / (b11 * b22 - b12 ^ 2)).
+    { apply Rmult_le_pos; [apply pow2_ge_0 | left; apply Rinv_0_lt_compat; exact HD]. }
+    lra.
+Qed.
 End SingleGas.
 
 (* ---- total thermal conductivity: what the assembly adds to the translational part ---- *)
